@@ -42,6 +42,7 @@ Definition lit_of (t : ty) : expr :=
   | TBool => ELit (LBool true)
   | TStr => ELit (LStr "s"%string)
   | TList b => EListLit b []
+  | TBox d n => EPrim (PBox d n) [ELit (LNum n 7)]
   end.
 Definition all_tys : list ty := [TMI; TInt; TBool; TStr].
 Definition typed_lits : list expr := map lit_of all_tys.
